@@ -612,10 +612,17 @@ func bulkSweep() {
 		struct{ name, s string }{"OSC with a 9000-byte payload", "a\x1b]0;" + strings.Repeat("t\u00e9", 3000) + "\x1b\\b"},
 		struct{ name, s string }{"DCS with 9000 bytes of data", "a\x1bP1;2q" + strings.Repeat("d~", 4500) + "\x1b\\b"},
 		struct{ name, s string }{"APC with a 9000-byte payload", "a\x1b_G" + strings.Repeat("p=", 4500) + "\x1b\\b"},
+		struct{ name, s string }{"OSC with a 70000-rune payload, BEL", "a\x1b]52;c;" + strings.Repeat("A", 70000) + "\x07b"},
+		struct{ name, s string }{"OSC with a 70000-rune payload, ST", "a\x1b]52;c;" + strings.Repeat("A", 70000) + "\x1b\\b"},
+		struct{ name, s string }{"OSC with a 70000-rune payload, CAN", "a\x1b]52;c;" + strings.Repeat("A", 70000) + "\x18b"},
+		struct{ name, s string }{"DCS with 70000 bytes of data", "a\x1bP1;2q" + strings.Repeat("d", 70000) + "\x1b\\b"},
+		struct{ name, s string }{"APC with a 70000-byte payload", "a\x1b_G" + strings.Repeat("p", 70000) + "\x1b\\b"},
 		struct{ name, s string }{"3000 short CSI sequences", strings.Repeat("\x1b[1;2A\x1b[m", 1500)},
 		struct{ name, s string }{"CSI with 3000 parameters", "\x1b[" + strings.Repeat("1;", 3000) + "mz"},
 		struct{ name, s string }{"CSI with a 5000-digit parameter", "\x1b[" + strings.Repeat("7", 5000) + ";3mz"},
 		struct{ name, s string }{"5000 invalid bytes between text", "a" + strings.Repeat("\xff\xc3", 2500) + "b"})
+	skip := r.Skip()
+	ci := 0
 	for _, st := range streams {
 		input := []byte(st.s)
 		want, outside := reference(input)
@@ -636,6 +643,13 @@ func bulkSweep() {
 					chunks = append(chunks, input[i:j])
 				}
 			}
+			ci++
+			if ci <= skip {
+				continue
+			}
+			// the parser runs in its own goroutine: if it panics the worker dies; the parent turns that into a
+			// violation and starts the worker again behind this case
+			r.Progress(ci, fmt.Sprintf("%s (%d bytes), reads of %d bytes (0 = one read)", st.name, len(input), size))
 			r.Count("parser_runs", 1)
 			got, _, _, eofs, ok := runParser(chunks)
 			d := detail{State: "ground", Input: fmt.Sprintf("%s (%d bytes)", st.name, len(input)), Chunks: []string{fmt.Sprintf("reads of %d bytes (0 = one read)", size)}}
@@ -743,11 +757,10 @@ func main() {
 				rec(nil, nil, 0)
 			}
 			if idx == 0 {
-				bulkSweep()
-			}
-			if idx == 0 {
 				r.Sample(map[string]any{"entered_state": "csi-param", "suffix": "; : 7 m", "input": "\x1b[1;:7mx", "reads": "all 2^7 splits"})
 			}
+		case "bulk":
+			bulkSweep()
 		case "params":
 			// parameter decoding: all parameter strings of <= 6 symbols over {0, 7, a 19-digit number, ;, :}
 			els := []string{"0", "7", "9999999999999999999", ";", ":"}
@@ -801,10 +814,27 @@ func main() {
 	}
 	r.Spawn(16, "states", 0)
 	r.Spawn(16, "params", 0)
+	r.SpawnTolerant(1, "bulk", func(desc, tail string) {
+		site := "unknown"
+		for _, l := range strings.Split(tail, "\n") {
+			if strings.Contains(l, "vaxis/ansi.") && strings.Contains(l, "(") {
+				site = strings.TrimSpace(strings.SplitN(l, "(", 2)[0])
+				if i := strings.LastIndex(site, "/"); i >= 0 {
+					site = site[i+1:]
+				}
+				break
+			}
+		}
+		first := tail
+		if i := strings.Index(first, "\n"); i >= 0 {
+			first = first[:i]
+		}
+		r.Violation("C02|bulk|crash|"+site, 0, detail{State: "ground", Input: desc, Why: "the process died: " + first})
+	})
 	n := r.Get("parser_runs")
 	r.Finish(explore.Coverage{
 		States: -1, Transitions: n, Traces: n, Evaluations: n,
-		Rule:       "for each of the 16 parser states (entered by its shortest prefix) and 12 further prefixes (each string state with content consumed, the states just after a string was left by ESC or cancelled by CAN/SUB): every suffix of <= n symbols over a 30-symbol alphabet with one or two representatives per byte class of the state table (C0, BEL, CAN, SUB, ESC, 0x20-2F, digits, ':', ';', 0x3C-3F, every state-changing final of the escape state, ordinary finals, DEL, 2/3/4-byte scalars, a combining mark, U+FFFD, an invalid byte) followed by a sentinel 'x', fed to the real ansi.Parser under every split into reads (all 2^(len-1) splits up to 6 bytes, every single split beyond); plus every CSI and DCS parameter string of <= 6 elements over {0, 7, a 19-digit number, ;, :} and 59 boundary values (all last digits next to 2^31-1, one digit more, neighbours of 2^8/2^15/2^16/2^32/2^63/2^64) bare and with leading zeros in 9 list / sub-parameter positions. Bulk: 9 streams of 5-20 KiB (all ordered pairs of alphabet symbols, long text, 9000-byte OSC/DCS/APC payloads, thousands of CSI sequences / parameters / digits, thousands of invalid bytes), whole and in reads of 4096, 4095, 4097, 1000 and 7 bytes. Compared with an independent transcription of the vt100.net state table with the documented extensions; text runs are compared after merging Prints, each Print's width and (unsplit) cluster boundaries against uniseg. distinct = inputs that passed under all splits",
+		Rule:       "for each of the 16 parser states (entered by its shortest prefix) and 12 further prefixes (each string state with content consumed, the states just after a string was left by ESC or cancelled by CAN/SUB): every suffix of <= n symbols over a 30-symbol alphabet with one or two representatives per byte class of the state table (C0, BEL, CAN, SUB, ESC, 0x20-2F, digits, ':', ';', 0x3C-3F, every state-changing final of the escape state, ordinary finals, DEL, 2/3/4-byte scalars, a combining mark, U+FFFD, an invalid byte) followed by a sentinel 'x', fed to the real ansi.Parser under every split into reads (all 2^(len-1) splits up to 6 bytes, every single split beyond); plus every CSI and DCS parameter string of <= 6 elements over {0, 7, a 19-digit number, ;, :} and 59 boundary values (all last digits next to 2^31-1, one digit more, neighbours of 2^8/2^15/2^16/2^32/2^63/2^64) bare and with leading zeros in 9 list / sub-parameter positions. Bulk: 14 streams of 5-70 KiB (all ordered pairs of alphabet symbols, long text, 9000-byte and 70000-byte OSC/DCS/APC payloads with each terminator, thousands of CSI sequences / parameters / digits, thousands of invalid bytes), whole and in reads of 4096, 4095, 4097, 1000 and 7 bytes. Compared with an independent transcription of the vt100.net state table with the documented extensions; text runs are compared after merging Prints, each Print's width and (unsplit) cluster boundaries against uniseg. distinct = inputs that passed under all splits",
 		Exhaustive: true,
 		Bounds:     map[string]any{"suffix_len": maxLen, "alphabet": len(alphabet), "skipped_outside_alphabet": r.Get("outside_alphabet")},
 		Assumptions: []string{"the ST that ends a string is suppressed iff the string state consumed at least one character (pinned by the repository's TestOSC)",
